@@ -33,13 +33,14 @@ def run(ctx):
     ctx.add_obligations(vcheck.coq_props("Store", "C01"))
     ctx.cov["checker_cmd"] = ("coqc -Q coq/Store BWStore coq/Store/Props/C01.v; work/bin/h_store -mode hist | "
                               "coqc work/C01/cases_*.v (BWStore.Corr.mismatches_from, vm_compute)")
-    n = 120 if ctx.quick() else 6000
+    n = 120 if ctx.quick() else 3000
     hargs = ["-maxops", 40, "-usize", 24]
     if ctx.replay and sc.replay(ctx, [], hargs, (True, False, False)):
         return
     hists = sc.hstore(["-mode", "hist", "-n", n, "-seed", ctx.seed] + hargs)
     bad = sc.model_mismatches(ctx, "cases_c01", hists, True, False, False)
     sc.report(ctx, ctx.seed, hargs, hists, bad)
+    sc.oracle_check(ctx, ctx.seed, hargs, hists, *(True, False, False))
     dist = sc.distribution(hists)
     ctx.cov.update(dist)
     ctx.cov["evaluations"] = dist["steps"]
@@ -69,17 +70,6 @@ def run(ctx):
 
 
 def search(ctx, broken):
-    """failing-input search when an obligation or the build breaks: run the correspondence anyway is impossible without
-    the model, so compare the implementation against the reference set semantics coded in the harness observations:
-    a listing must be duplicate-free, sorted, and agree with Exist."""
-    try:
-        hists = sc.hstore(["-mode", "hist", "-n", 200, "-seed", ctx.seed])
-    except Exception:
-        return None
-    for h in hists:
-        for i, s in enumerate(h["steps"]):
-            for mask, ranks in s["obs"]["graphs"]:
-                if ranks != sorted(set(ranks)) or sum(1 << r for r in ranks) & ~mask:
-                    return {"history": h["idx"], "step": i, "operations": [x["op"] for x in h["steps"][:i + 1]],
-                            "universe": h["strs"], "listing": ranks, "exist_mask": mask}
-    return None
+    """failing-input search when an obligation or the build breaks: the implementation against the Python reading of
+    the SPEC (checks/store_oracle.py) on fresh histories"""
+    return sc.oracle_search(ctx, [], ["-maxops", 30, "-usize", 24], (True, False, False))
